@@ -493,3 +493,58 @@ func VerifC10ParametersPerDocument() {
 	verifAssert(got == exp2, "C10/result-for-a-document-depends-on-an-earlier-document "+label)
 	verifCover("C10/params/end")
 }
+
+// VerifC10DocumentsWithAnchors: documents of ONE file that use the same anchor names (as generated manifests do): what
+// an expression yields for document k is what it yields for that document alone - an alias or merge key resolves to
+// the anchor of its own document. 2-3 documents from a pool, expressions that look through aliases.
+var c10AnchorDocs = []string{"a: &x 1\nb: *x\n", "a: &x 2\nb: *x\n", "a: &x {k: 3}\nb: {<<: *x, j: 5}\n", "a: &y 4\nb: *y\n", "b: 9\n", "a: &x [6]\nb: *x\nc: &y 7\nd: *y\n"}
+var c10AnchorExprs = []string{".b", ".", "explode(.)", ".b | explode(.)", "[.. | select(tag == \"!!int\")] | length", ".b.k", ".b | document_index", ".b | to_yaml", ".d", "[.b] | flatten"}
+
+func c10RunOneFile(text string, expr string) ([]string, bool) {
+	prefs := NewDefaultYamlPreferences()
+	dec := NewYamlDecoder(prefs)
+	var events []string
+	var out bytes.Buffer
+	printer := NewPrinter(&c10RecEncoder{events: &events}, NewSinglePrinterWriter(&out))
+	ev := NewStreamEvaluator().(*streamEvaluator)
+	if _, err := ev.Evaluate("f.yml", strings.NewReader(text), vParse(expr), printer, dec); err != nil {
+		return events, false
+	}
+	return events, true
+}
+
+func VerifC10DocumentsWithAnchors() {
+	n := 2 + verifChoice("documents", 2)
+	ei := verifChoice("expr", len(c10AnchorExprs))
+	expr := c10AnchorExprs[ei]
+	text := ""
+	var want []string
+	okAlone := true
+	for i := 0; i < n; i++ {
+		d := c10AnchorDocs[verifChoice("doc"+verifItoa(int64(i)), len(c10AnchorDocs))]
+		if i > 0 {
+			text += "---\n"
+		}
+		text += d
+		alone, ok := c10RunOneFile(d, expr)
+		okAlone = okAlone && ok
+		if expr == ".b | document_index" {
+			for j := range alone {
+				alone[j] = strings.Replace(alone[j], "<!!int 0>", "<!!int "+verifItoa(int64(i))+">", 1)
+			}
+		}
+		want = append(want, alone...)
+	}
+	verifObserve("text", text)
+	got, ok := c10RunOneFile(text, expr)
+	label := " expr=" + expr
+	verifAssert(ok == okAlone, "C10/error-depends-on-neighbour-documents"+label)
+	if !ok || !okAlone {
+		return
+	}
+	g, w := strings.Join(got, "; "), strings.Join(want, "; ")
+	verifObserve("got", g)
+	verifObserve("want", w)
+	verifAssert(g == w, "C10/result-for-a-document-depends-on-its-neighbours"+label)
+	verifCover("C10/anchor-docs/end")
+}
